@@ -106,6 +106,10 @@ class Typer:
         last = d.split('.')[-1]
         if last == 'dot' and len(c.args) == 2 and d.split('.')[0] in ('np', 'numpy'):
             a, b = self.kind(c.args[0]), self.kind(c.args[1])
+            if a is None or b is None:
+                k = self.conjugation(c)
+                if k:
+                    return k
             return self.apply(c, a, b)
         if last in ('zeros', 'zeros_like') and d.split('.')[0] in ('np', 'numpy'):
             return 'zero'
@@ -132,6 +136,18 @@ class Typer:
         if last == 'array' and c.args:
             return self.kind(c.args[0])
         return self.known_call(c)
+
+    def conjugation(self, c):
+        """lattice . X . invlatt  (either association) with X of unknown kind: the similarity transform that turns a matrix
+        acting on unit-cell coordinates into the Cartesian operator -> 'op:cart'."""
+        def isdot(e):
+            return isinstance(e, ast.Call) and (dotted(e.func) or '').split('.')[-1] == 'dot' and len(e.args) == 2
+        a, b = c.args
+        if isdot(b) and self.kind(a) == 'op:u2c' and self.kind(b.args[1]) == 'op:c2u' and self.kind(b.args[0]) in (None, 'op:latt'):
+            return 'op:cart'
+        if isdot(a) and self.kind(b) == 'op:c2u' and self.kind(a.args[0]) == 'op:u2c' and self.kind(a.args[1]) in (None, 'op:latt'):
+            return 'op:cart'
+        return None
 
     SIGS = {  # method name -> ([param kinds after g/self], return kind)
         'pos2cart': (['latt', None], 'cart'), 'unit2cart': (['latt', 'unit'], 'cart'),
@@ -254,3 +270,33 @@ def _bind(ty, target, kind):
     elif isinstance(target, ast.Tuple) and isinstance(kind, tuple) and len(kind) == len(target.elts):
         for e, k in zip(target.elts, kind):
             _bind(ty, e, k)
+
+
+def transposed(e):
+    """syntactically transposed operand:  X.T,  X.transpose(),  np.transpose(X)"""
+    if isinstance(e, ast.Attribute) and e.attr == 'T':
+        return True
+    if isinstance(e, ast.Call):
+        if isinstance(e.func, ast.Attribute) and e.func.attr == 'transpose':
+            return True
+    return False
+
+
+def rotation_sides(fn, ty):
+    """every product  np.dot(a, b) / a @ b  in ``fn`` in which exactly one operand is a rotation operator (g.cartrot, g.rot,
+    or a local typed as one) and the other is not an operator: yields (node, side, transposed?) with side 'left'/'right'.
+    ``np.dot(v, R)`` with an untransposed R on the right is R^T v: the *inverse* rotation applied to v."""
+    for c in walk_local(fn):
+        if isinstance(c, ast.Call) and (dotted(c.func) or '').split('.')[-1] == 'dot' and len(c.args) == 2 and not c.keywords:
+            a, b = c.args
+        elif isinstance(c, ast.BinOp) and isinstance(c.op, ast.MatMult):
+            a, b = c.left, c.right
+        else:
+            continue
+        ka, kb = ty.kind(a), ty.kind(b)
+        ra, rb = ka in ('op:cart', 'op:latt'), kb in ('op:cart', 'op:latt')
+        oa, ob = isinstance(ka, str) and ka.startswith('op:'), isinstance(kb, str) and kb.startswith('op:')
+        if ra and not ob:
+            yield c, 'left', transposed(a)
+        elif rb and not oa:
+            yield c, 'right', transposed(b)
